@@ -11,7 +11,7 @@ TRUSTED_BASE = [
     "src/generated on every run",
     "correspondence: anything::query vs Run.query on every generated `to`, `+`, `-` between unit expressions",
     "SI normalisation in Python (dimension vector and scale from the translated tables, independent of Compound::factor) as oracle; "
-    "how a unit expression is read is taken from str::parse::<Compound> (that reading is C05's subject)",
+    "what a single unit word means is taken from str::parse::<Compound> (C05's subject); the structure of a unit expression (*, /, ^n) is read independently",
 ]
 ASSUMPTIONS = ["theorems are about the model; scope: proportional units (offset scales are C09)"]
 
@@ -26,7 +26,13 @@ def gen_pairs(rng, V, n):
     while len(pairs) < n:
         c = rng.random()
         u1 = V.unit_expr(rng)
-        if c < 0.45:
+        if c < 0.12:
+            # a unit named twice with explicit powers, against the spelling where it is named once
+            w = V.word(rng, prefix_prob=0)
+            k = rng.choice([1, 2, 3])
+            pairs.append(("%s*%s/%s^%d" % (w, u1.replace("/", "*"), w, k + 1), "%s/%s^%d" % (u1.replace("/", "*"), w, k)))
+            pairs.append(("%s*%s^%d" % (w, w, k), "%s^%d" % (w, k + 1)))
+        elif c < 0.45:
             pairs.append((u1, "@expand"))           # same dimension, expanded into base units
         elif c < 0.7:
             pairs.append((u1, "@expand*cancel"))    # ... with a cancelling factor added
@@ -53,12 +59,15 @@ def run(rng, tier, model_ok):
                 e = e + "*" + w + "/" + w
             b = e
         pairs.append((a, b))
-    na_list = unitlib.impl_units([a for a, _ in pairs])
-    nb_list = unitlib.impl_units([b for _, b in pairs])
+    # what each spelling denotes: the words as the implementation reads them one by one, the structure as documented
+    wl = sorted({w for a, b in pairs for w in unitlib.words_of(a) + unitlib.words_of(b)})
+    single = dict(zip(wl, unitlib.impl_units(wl)))
+    na_list = [unitlib.struct_names(V, a, single) for a, _ in pairs]
+    nb_list = [unitlib.struct_names(V, b, single) for _, b in pairs]
     items = []
     stats = {"commensurable": 0, "mismatching": 0, "unreadable_unit_text": 0, "cancelling_spelling": 0}
     for (a, b), na, nb in zip(pairs, na_list, nb_list):
-        if not na or not nb or V.has_offset(na) or V.has_offset(nb):
+        if not na or not nb or na == "clash" or nb == "clash" or V.has_offset(na) or V.has_offset(nb):
             stats["unreadable_unit_text"] += 1
             continue
         comm = V.dims(na) == V.dims(nb)
@@ -75,7 +84,7 @@ def run(rng, tier, model_ok):
             v = pipeline.single_value(reply)
             if v is None:
                 return {"why": "same base dimensions but the cast was refused", "expected": "a number"}
-            if v[2] != nb:
+            if V.dims(v[2]) != V.dims(nb) or V.scale(v[2]) != V.scale(nb):
                 return {"why": "the result does not carry the target unit"}
             if V.si(v[0], v[1], v[2]) != x * V.scale(na):
                 return {"why": "conversion changed the quantity: SI value %s, expected %s" % (V.si(v[0], v[1], v[2]), x * V.scale(na))}
@@ -102,7 +111,7 @@ def run(rng, tier, model_ok):
         if rng.random() < 0.25:
             def adopt(reply, na=na, want=None):
                 v = pipeline.single_value(reply)
-                if v is None or v[2] != na:
+                if v is None or V.dims(v[2]) != V.dims(na) or V.scale(v[2]) != V.scale(na):
                     return {"why": "a plain number did not adopt the quantity's unit"}
                 return None
             items.append(("%s + %s %s" % (ys, xs, a), adopt))
